@@ -44,6 +44,11 @@ var Children = map[string]func([]string) int{"malformed": childMalformed, "conc"
 type rtCase struct {
 	Msgs  []mspec  `json:"msgs"`
 	Chunk chunking `json:"chunk"` // Family "tap" = wire-tap check only
+	// raw (unframed) stream cases, see rawstream.go
+	Stream   string `json:"stream,omitempty"`   // "" = NewStream, "raw" = NewRawStream
+	Wire     string `json:"wire,omitempty"`     // write | hand-compact | hand-indent
+	Sep      string `json:"sep,omitempty"`      // separator between hand-serialised values
+	Truncate int    `json:"truncate,omitempty"` // bytes cut off the end (inside the last message)
 }
 
 func writeAll(msgs []mspec) ([]byte, error) {
@@ -68,13 +73,21 @@ func rtCheck(cs rtCase) (class, detail string) {
 			class, detail = "panic", fmt.Sprint(e)
 		}
 	}()
-	wire, err := writeAll(cs.Msgs)
-	if err != nil {
-		return "write-error", err.Error()
-	}
 	wants := make([]desc, len(cs.Msgs))
 	for i, m := range cs.Msgs {
 		wants[i] = m.desc()
+	}
+	if cs.Stream == "raw" {
+		wire, bounds, err := rawWire(cs)
+		if err != nil {
+			return "write-error", err.Error()
+		}
+		class, detail, _ = rawCheck(cs, wire, bounds, wants)
+		return class, detail
+	}
+	wire, err := writeAll(cs.Msgs)
+	if err != nil {
+		return "write-error", err.Error()
 	}
 	return rtCheckWire(cs, wire, wants)
 }
@@ -183,7 +196,7 @@ func genSequence(r *rand.Rand, big bool) []mspec {
 
 func (k *checker) roundTrip() {
 	c := k.c
-	nSeq := c.Pick(300, 4500)
+	nSeq := c.Pick(300, 3000)
 	type job struct {
 		i    int
 		seed int64
@@ -242,6 +255,8 @@ func (k *checker) roundTrip() {
 					}
 					c.Violate("roundtrip/"+ch.Name+"/"+class, detail, red)
 				}
+				// the same sequence through the unframed stream
+				k.rawSequence(j.seed, msgs, wants, r)
 				if j.i < 2 {
 					s := msgs
 					if len(s) > 2 {
@@ -433,7 +448,7 @@ func (k *checker) concurrency() {
 	var specs []sessSpec
 	for i := 0; i < nSess; i++ {
 		n := []int{2, 8, 32}[i%3]
-		sp := sessSpec{Idx: i, Seed: r.Int63n(1 << 40), NA: n, NB: (n + 1) / 2, M: 6 + r.Intn(10), Notifiers: 1 + r.Intn(3), NotifM: 10 + r.Intn(30), Big: i%8 == 0}
+		sp := sessSpec{Idx: i, Seed: r.Int63n(1 << 40), NA: n, NB: (n + 1) / 2, M: 6 + r.Intn(10), Notifiers: 1 + r.Intn(3), NotifM: 10 + r.Intn(30), Big: i%8 == 0, Raw: i%4 == 1}
 		if n == 32 {
 			sp.M = 4 + r.Intn(6)
 		}
